@@ -110,8 +110,29 @@ func c18GenSchemaX(r *core.Rng, rich bool) (*yang.Stmt, *snode) {
 			}
 			return s, sn
 		}
-		defer func() { sn.rtype = yang.RTypeFromStmt(s.Find("type"), nil) }()
-		switch r.Intn(4) {
+		var tdDef *string // default of the typedef the leaf's type names
+		var baseType *yang.Stmt
+		defer func() {
+			t := s.Find("type")
+			if baseType != nil {
+				t = baseType
+			}
+			sn.rtype = yang.RTypeFromStmt(t, nil)
+		}()
+		switch r.Intn(6) {
+		case 4:
+			// a typedef that gives a default: the leaf has it unless it is mandatory or gives its own
+			s.Add(yang.S("type", "td-str"))
+			baseType = yang.S("type", "string")
+			sn.vals = c18StrVals
+			d := "from typedef"
+			tdDef = &d
+		case 5:
+			s.Add(yang.S("type", "td-u8"))
+			baseType = yang.S("type", "uint8")
+			sn.vals = []string{"0", "1", "2", "7", "255"}
+			d := "3"
+			tdDef = &d
 		case 0:
 			s.Add(yang.S("type", "string"))
 			sn.vals = c18StrVals
@@ -139,6 +160,9 @@ func c18GenSchemaX(r *core.Rng, rich bool) (*yang.Stmt, *snode) {
 			d := core.Pick(r, sn.vals)
 			s.Add(yang.S("default", d))
 			sn.def = &d
+		}
+		if tdDef != nil && sn.def == nil && !sn.mandatory {
+			sn.def = tdDef
 		}
 		return s, sn
 	}
@@ -302,7 +326,9 @@ func c18GenSchemaX(r *core.Rng, rich bool) (*yang.Stmt, *snode) {
 	}
 	ks, kn := genKids(1, r.Range(2, 4), false)
 	top := yang.S("container", "c18", ks...)
-	m := yang.S("module", "m18", yang.S("namespace", "urn:verif:m18"), yang.S("prefix", "m"), top)
+	m := yang.S("module", "m18", yang.S("namespace", "urn:verif:m18"), yang.S("prefix", "m"),
+		yang.S("typedef", "td-str", yang.S("type", "string"), yang.S("default", "from typedef")),
+		yang.S("typedef", "td-u8", yang.S("type", "uint8"), yang.S("default", "3")), top)
 	if rich {
 		m.Add(yang.S("import", "ids", yang.S("prefix", "ids")))
 		yang.SortSections(m)
